@@ -1016,7 +1016,13 @@ impl Melda {
     /// ```    
     pub fn reload(&self) -> Result<()> {
         // Check that stage is empty, otherwise fail (user must unstage explicity if necessary)
-        if self.has_staging() {
+        if self.has_staging()
+            || self
+                .data
+                .read()
+                .expect("cannot_acquire_data_for_reading")
+                .has_staging()
+        {
             bail!("stage_not_empty")
         }
         // Clear the documents
@@ -1217,7 +1223,13 @@ impl Melda {
             return self.reload();
         }
         // Ensure that the stage is empty
-        if self.has_staging() {
+        if self.has_staging()
+            || self
+                .data
+                .read()
+                .expect("cannot_acquire_data_for_reading")
+                .has_staging()
+        {
             bail!("stage_not_empty")
         }
         let mut documents_w = self
